@@ -3,7 +3,7 @@
     Model: AnalysisDefs.v (faithful transcription of the classification core of src/analyser.cpp);
     executable specification: AnalysisSpec.v (the same predicate is evaluated on the real AnalyserModel). *)
 From Coq Require Import List Bool Arith Permutation.
-From LC Require Import AnalysisDefs AnalysisSpec AnalysisProofs AnalysisWfProofs AnalysisOwnProofs AnalysisRenameProofs AnalysisConfluenceProofs AnalysisDefinerProofs AnalysisWitness.
+From LC Require Import AnalysisDefs AnalysisSpec AnalysisProofs AnalysisWfProofs AnalysisOwnProofs AnalysisRenameProofs AnalysisConfluenceProofs AnalysisDefinerProofs AnalysisDepProofs AnalysisWitness.
 Import ListNotations.
 
 (** ** Termination of the do/while over mInternalEquations *)
@@ -107,13 +107,32 @@ Proof. intro H. exists deps_sys. exact (AnalysisWitness.deps_witness H). Qed.
 Print Assumptions C05_result_wf_dependencies_refuted.
 
 (** With the repair fixes/C05-dependency-retarget.diff (dependency_fix = true: dependencies compared and looked up
-    through the equivalence class) the witness is well formed in every clause.
-    NOT PROVED: forall s r, dependency_fix = true -> analyse s = Done r -> valid_type (r_type r) = true ->
-    wf_deps_complete s r = true (checked against the patched library on every generated system: 0 failures). *)
+    through the equivalence class; committed in the library) the witness is well formed in every clause ... *)
 Theorem C05_result_wf_dependencies_fixed_witness : dependency_fix = true ->
   exists r, analyse deps_sys = Done r /\ wf deps_sys r = true.
 Proof. exact AnalysisWitness.deps_witness_fixed. Qed.
 Print Assumptions C05_result_wf_dependencies_fixed_witness.
+
+(** ... and in general (clauses 4 and 41 of AnalysisSpec.wf_failures): in every valid result, each equation's
+    dependency list contains every class that its document equation reads and does not compute itself
+    (wf_deps_complete), and contains nothing else - only classes the document equation reads, never a class the
+    equation computes, only classes of variables of the result (wf_deps_sound).
+    Hypotheses: [dependency_fix = true] (without the repair the statement is false,
+    C05_result_wf_dependencies_refuted_when_unfixed); [unique_ids s], the abstract system gives different ids to
+    different equations (the specification looks a document equation up by id; the generator and the importer number
+    equations consecutively); [states_have_odes s], inherited from the typing invariant the proof goes through (it
+    excludes C05-state-without-equation; not believed to be necessary for this clause, not removed). *)
+Theorem C05_result_wf_dependencies_complete : forall s r,
+  analyse s = Done r -> valid_type (r_type r) = true -> dependency_fix = true -> unique_ids s -> states_have_odes s ->
+  wf_deps_complete s r = true.
+Proof. exact AnalysisDepProofs.result_wf_deps_complete. Qed.
+Print Assumptions C05_result_wf_dependencies_complete.
+
+Theorem C05_result_wf_dependencies_sound : forall s r,
+  analyse s = Done r -> valid_type (r_type r) = true -> dependency_fix = true -> unique_ids s -> states_have_odes s ->
+  wf_deps_sound s r = true.
+Proof. exact AnalysisDepProofs.result_wf_deps_sound. Qed.
+Print Assumptions C05_result_wf_dependencies_sound.
 
 (* NOT PROVED: forall s r, analyse s = Done r -> valid_type (r_type r) = true -> wf_topological false r = true
    ("direct equations can be ordered so that dependencies come first").  Evaluated on the real AnalyserModel and on the model's own
